@@ -8,8 +8,10 @@ import ast
 from .. import AnalysisError, flow
 from ..fold import is_unknown
 from ..srcmodel import walk_local, norm, dotted, guards, parent
-from . import common
+from . import common, forward
 from .c16 import fixpoint_loops
+
+from .c13 import lockdown, qq_depth_precedence
 
 META = {
     'explanation': (
@@ -23,7 +25,7 @@ META = {
         "components it consumed (every component is emitted once); the depth "
         "truncation acts on the standardised list, not before it; qq_depth "
         "overrides min/max."),
-    'families': ['TBL', 'FIXPOINT', 'CONSUME', 'ORDER'],
+    'families': ['TBL', 'FIXPOINT', 'CONSUME', 'ORDER', 'FORWARD', 'DEADPARAM', 'SIB-DEFAULTS'],
 }
 
 
@@ -36,6 +38,9 @@ def check(ctx):
     ctx.attempt(_standardize)
     ctx.attempt(_subdivide)
     ctx.attempt(_pass_back_linear)
+    ctx.attempt(forward.check_all, module_suffixes=('tract.aliquot_parse', 'tract.tract', 'tract.tract_parse'))
+    ctx.attempt(lockdown, ctx.repo.func('Tract.parse'), only=('qq_depth', 'qq_depth_min', 'qq_depth_max', 'break_halves'))
+    ctx.attempt(qq_depth_precedence, ctx.repo.func('Tract.parse'))
 
 
 def _tables(ctx):
